@@ -237,6 +237,16 @@ func c13BranchOnlySchema() gen.S {
 	}}
 }
 
+// c13TopLevelArraySchema: the body is a list; every default lives inside its items (and inside lists below them).
+func c13TopLevelArraySchema() gen.S {
+	return gen.S{"type": "array", "maxItems": 4.0, "items": gen.S{"type": "object", "required": gen.Arr("name"), "properties": gen.S{
+		"name": gen.S{"type": "string"},
+		"qty":  gen.S{"type": "integer", "default": 1.0},
+		"tags": gen.S{"type": "array", "items": gen.S{"type": "object", "properties": gen.S{"k": gen.S{"type": "string", "default": "t"}}}},
+		"opts": gen.S{"type": "object", "default": gen.S{"fast": true}, "properties": gen.S{"fast": gen.S{"type": "boolean"}, "level": gen.S{"type": "integer", "default": 3.0}}},
+	}}}
+}
+
 // c13SharedDefaultSchema: one component schema with a default, used for an outer property and again inside later siblings.
 func c13SharedDefaultSchema() gen.S {
 	r := gen.S{"$ref": "#/components/schemas/Retries"}
@@ -398,10 +408,11 @@ func runC13(c *core.Ctx) {
 	if c.Shard == 0 {
 		c13EmptyValues(c)
 		c13StructuredDefaults(c)
+		c13SharedParameterSchema(c)
 	}
 	idx := 0
 	for _, ex := range []*bool{nil, bp(true), bp(false)} {
-		for si, schema := range []gen.S{c13BodySchema(), c13PlainSchema(), c13BranchOnlySchema(), c13SharedDefaultSchema()} {
+		for si, schema := range []gen.S{c13BodySchema(), c13PlainSchema(), c13BranchOnlySchema(), c13SharedDefaultSchema(), c13TopLevelArraySchema()} {
 			if si >= 2 && ex != nil {
 				continue // the body-centred schemas run once
 			}
@@ -503,6 +514,17 @@ func c13Group(c *core.Ctx, explode *bool, si int, schema gen.S, secured bool, ma
 			jb("items", gen.S{"tasks": gen.Arr(gen.S{}, gen.S{"retries": 1.0}, gen.S{"label": "x"})}),
 			jb("everything absent", gen.S{}),
 			jb("everything sent", gen.S{"retries": 1.0, "label": "a", "steps": gen.S{"retries": 2.0, "sub": gen.S{"label": "b", "retries": 3.0}}, "tasks": gen.Arr(gen.S{"retries": 4.0, "label": "c"}), "zlast": gen.S{"label": "d"}}),
+			bodies[len(bodies)-1],
+		}
+	}
+	if si == 4 {
+		bodies = []c13body{
+			jb("items with absent members", gen.Arr(gen.S{"name": "bolt"}, gen.S{"name": "nut", "qty": 3.0})),
+			jb("one item, list below it", gen.Arr(gen.S{"name": "x", "qty": 2.0, "tags": gen.Arr(gen.S{}, gen.S{"k": "own"}), "opts": gen.S{}})),
+			jb("empty list", gen.Arr()),
+			jb("everything sent", gen.Arr(gen.S{"name": "a", "qty": 2.0, "tags": gen.Arr(gen.S{"k": "v"}), "opts": gen.S{"fast": false, "level": 1.0}})),
+			jb("an item violates", gen.Arr(gen.S{"name": "a"}, gen.S{"qty": 2.0})),
+			jb("too many items", gen.Arr(gen.S{"name": "a"}, gen.S{"name": "b"}, gen.S{"name": "c"}, gen.S{"name": "d"}, gen.S{"name": "e"})),
 			bodies[len(bodies)-1],
 		}
 	}
